@@ -99,6 +99,42 @@ class Interp(LibMixin, CallMixin, StmtMixin, ExprMixin, InterpBase):
             return z3.If(isnone, VNone, base)
         return base
 
+    def assume_shape(self, v, p):
+        """Assume that an existing value v has the declared sort (typing of list elements / fields)."""
+        ctx, st, t = self.ctx, self.st, self.table
+        if p is None or p.kind in ("val",):
+            return
+        conds = []
+        if p.kind == "any":
+            conds.append(z3.Implies(Val.is_VRef(v), z3.And(Val.r(v) > 0, Val.r(v) < st.next_id,
+                                    self.host_or_builtin_class(z3.Select(st.typeof, Val.r(v))))))
+        elif p.kind == "int":
+            conds.append(Val.is_VInt(v))
+        elif p.kind == "str":
+            conds.append(Val.is_VStr(v))
+        elif p.kind == "bool":
+            conds.append(Val.is_VBool(v))
+        elif p.kind == "obj":
+            names = list(p.subclasses) if p.subclasses else [p.cls]
+            ids = [t.ids[s] if s in t.ids else self.index.find_class(s).cid for s in names]
+            shape = z3.And(Val.is_VRef(v), Val.r(v) > 0, Val.r(v) < st.next_id,
+                           z3.Or(*[z3.Select(st.typeof, Val.r(v)) == k for k in ids]))
+            conds.append(z3.Or(Val.is_VNone(v), shape) if p.nullable else shape)
+        elif p.kind in ("list", "dict", "tuple"):
+            cid = t.id({"list": "list", "dict": "dict", "tuple": "tuple"}[p.kind])
+            conds.append(z3.And(Val.is_VRef(v), Val.r(v) > 0, Val.r(v) < st.next_id, z3.Select(st.typeof, Val.r(v)) == cid))
+        for c_ in conds:
+            ctx.assume(c_)
+        if p.kind == "obj" and p.inv and not p.nullable:
+            self.assume_invariant(p.cls, v, p.subclasses)
+
+    def reassume_invariants(self):
+        """After a coarse havoc: invariants of the objects this path knows about hold again (visible states)."""
+        self.st.ghost["_inv_done"] = set()
+        self.st.ghost["_tag_cache"] = {}
+        for key, (clsname, v, subclasses) in list(self.st.ghost.get("_inv_objs", [])):
+            self.assume_invariant(clsname, v, subclasses)
+
     def host_or_builtin_class(self, c):
         t = self.table
         builtin_ok = [t.id(n) for n in ("dict", "list", "tuple", "set", "frozenset", "bytes", "object", "deque",
@@ -112,6 +148,9 @@ class Interp(LibMixin, CallMixin, StmtMixin, ExprMixin, InterpBase):
         if key in done:
             return
         done.add(key)
+        objs = self.st.ghost.setdefault("_inv_objs", [])
+        if not any(k == key for k, _ in objs):
+            objs.append((key, (clsname, v, subclasses)))
         names = [clsname] + list(subclasses or [])
         S_ = SpecCtx(self, self.top, {}, self.st.snapshot())
         for nm in names:
@@ -187,6 +226,10 @@ class Interp(LibMixin, CallMixin, StmtMixin, ExprMixin, InterpBase):
         if isinstance(c, Contract) and c.trusted:
             self.used_trusted.add(c.key)
         self.used_contracts.add(c.key)
+        # visible-state semantics: class invariants of declared object parameters hold at call boundaries
+        for nm, p in c.params.items():
+            if p is not None and p.kind == "obj" and nm in bound and not (fi.name == "__init__" and nm == "self"):
+                self.assume_shape(bound[nm], p)
         old = self.st.snapshot()
         S_ = SpecCtx(self, c, bound, old)
         S_.at_call = True
@@ -310,6 +353,8 @@ def verify_contract(index, table, contracts, c, axioms, timeout_ms=10000, max_pa
         S_ = SpecCtx(it, c, bound, old)
         if c.init_ghost is not None:
             c.init_ghost(S_)
+        if getattr(c, "protects", None) is not None:
+            st.ghost["protected"] = c.protects(S_)
         for cl in c.requires:
             ctx.assume(cl.fn(S_))
         old = st.snapshot()
